@@ -127,6 +127,14 @@ func runAnalysisTie(r *rep.Report, thorough bool, opt synth.Options, parts []str
 				continue
 			}
 			for _, mm := range compareAnalysis(a, m) {
+				// a program the specification model analyses and the implementation refuses: whatever
+				// the part looked at, the analysis did not deliver (e.g. an enum or union of an
+				// imported package that was not collected makes a later step stop)
+				if mm.Part == "outcome" && mm.Detail == "model accepts, implementation stops" {
+					r.Fail(rep.Failure{Signature: prefix + ":supported-program-refused", What: "the analysis stops on a program the specification model analyses: " + fmt.Sprint(mm.Impl),
+						Input: map[string]any{"case": a.Case.ID, "sources": a.Case.Sources()}, Observed: mm.Impl})
+					continue
+				}
 				if !inPart[mm.Part] {
 					r.Hist("other-part-mismatch:" + mm.Part)
 					continue
